@@ -6,7 +6,7 @@ CFG = dict(
         "the 64-bit flag word is modelled as the record {len, pos, group, low 16 bits}: each setter replaces its own field and sets bit 0 (com/flag.go; bit-level lemmas belong to C01)",
         "sort.Sort on a cluster is modelled by a stable insertion sort (indistinguishable while positions inside a group are distinct, which the split guarantees: C02_split_exact)",
         "channel semantics of the 128-slot send queue (non-blocking select) and Go map semantics of Session.frags (association list with unique keys)",
-        "the shim harness/overlay/c2--c02.go builds bare Sessions (no network) and calls write / receive / markSweepFrags directly; one wake-up of Session.listen = one markSweepFrags call",
+        "the shim harness/overlay/c2--c02.go builds bare Sessions (no network) and calls write / receive / markSweepFrags directly; in the listen-loop histories the real (*Session).listen goroutine runs against a scripted Profile (Switch/Connect) and in-memory connections",
     ],
     assumptions=[
         "F >= PacketHeaderSize (46; every build has F >= 262144) and the fragment count Size()/F + 1 is at most 65535 (the uint16 Len field); the tag count is not negative",
@@ -20,7 +20,7 @@ CFG = dict(
                "(polymorphic), all group ids, all histories (induction over the list of arrivals and wake-ups): the split is exact (count, positions, lengths, concatenation, "
                "where empty fragments occur) and write queues exactly the split (write(false) refuses exactly when not everything fits and then queues nothing, for every queue occupancy and fragment count); every arrival order with position 0 first, interleaved with ARBITRARY other packets and with wake-ups "
                "(fewer than 5 between two fragments of the group), makes the receiver react nothing,...,nothing,deliver(original) at the group's arrivals and leaves no cluster; fewer arrivals "
-               "than fragments (any strict subset) deliver nothing; after any history five wake-ups empty the table. The three hypotheses the code forces are shown necessary by vm_compute witnesses. "
+               "than fragments (any strict subset) deliver nothing; after any history five wake-ups empty the table; the client's listen loop (error counter, sweep gate) sweeps at most once between two arrivals however many connects or exchanges fail, so failed passes never cost a group. The three hypotheses the code forces are shown necessary by vm_compute witnesses. "
                "The model is tied to /repo by running generated histories (sizes kF+d around every change of the fragment count, the band F-H-1..F+1 for every tag count, "
                "orders, interleavings, omissions, wake-ups at the protocol's cadence and stalls, both directions with distinct device ids) through the real functions and through the model inside Coq.",
     level_note="Proof is about the model; the tie to the code is differential (its strength is that of the generator, distribution in the evidence). Built with -tags tiny "
